@@ -501,7 +501,9 @@ M('c01-catchall-swallows', 'C01', 'fire:R1.1',
             raise''', '''            raise''', 1))
 M('c01-sequence-result-removed', 'C01', 'fire:R1.1',
   (Q, '''            elif isinstance(results, collections.abc.Sequence):
-                results = dict(zip(envelope.recipients, results))
+                # Not dict(): ``slimta.queue.dict`` shadows the builtin here.
+                results = {rcpt: res for rcpt, res
+                           in zip(envelope.recipients, results)}
                 self._handle_partial_relay(id, envelope, attempts, results)
 ''', '', 1))
 M('c01-perm-arm-retries-and-fails', 'C01', 'fire:R1.1',
@@ -562,14 +564,17 @@ M('c01-twin-dispatch-early-returns', 'C01', 'silent',
   (Q, '''            if isinstance(results, collections.abc.Mapping):
                 self._handle_partial_relay(id, envelope, attempts, results)
             elif isinstance(results, collections.abc.Sequence):
-                results = dict(zip(envelope.recipients, results))
+                # Not dict(): ``slimta.queue.dict`` shadows the builtin here.
+                results = {rcpt: res for rcpt, res
+                           in zip(envelope.recipients, results)}
                 self._handle_partial_relay(id, envelope, attempts, results)
             else:
                 self._remove(id)''', '''            if isinstance(results, collections.abc.Mapping):
                 self._handle_partial_relay(id, envelope, attempts, results)
                 return
             if isinstance(results, collections.abc.Sequence):
-                results = dict(zip(envelope.recipients, results))
+                results = {rcpt: res for rcpt, res
+                           in zip(envelope.recipients, results)}
                 self._handle_partial_relay(id, envelope, attempts, results)
                 return
             self._remove(id)''', 1))
@@ -665,29 +670,6 @@ M('c12-requeue-before-unmark', 'C12', 'fire:Q4',
   (Q, '''                self.active_ids.discard(id)
                 self._add_queued((when, id))''', '''                self._add_queued((when, id))
                 self.active_ids.discard(id)''', 1))
-M('c12-prefix-advances-without-dispatch', 'C12', 'fire:Q5',
-  (Q, '''            if now >= timestamp:
-                self._pool_spawn('store', self._dequeue, entry_id)
-                last_i = i+1
-            else:
-                break''', '''            last_i = i+1
-            if now >= timestamp:
-                self._pool_spawn('store', self._dequeue, entry_id)
-            else:
-                break''', 1))
-M('c12-flush-clears-first', 'C12', 'fire:Q5',
-  (Q, '''            for entry in self.queued:
-                self._pool_spawn('store', self._dequeue, entry[1])
-            self.queued = []
-            self.queued_ids = set()''', '''            entries, self.queued = self.queued[1:], []
-            self.queued_ids = set()
-            for entry in entries:
-                self._pool_spawn('store', self._dequeue, entry[1])''', 1))
-M('c12-dispatch-early', 'C12', 'fire:Q6',
-  (Q, '''            if now >= timestamp:
-                self._pool_spawn('store', self._dequeue, entry_id)''',
-   '''            if now >= timestamp or i == 0:
-                self._pool_spawn('store', self._dequeue, entry_id)''', 1))
 M('c12-scan-continues-past-not-due', 'C12', 'fire:Q6',
   (Q, '''                last_i = i+1
             else:
@@ -697,16 +679,6 @@ M('c12-scan-continues-past-not-due', 'C12', 'fire:Q6',
 M('c12-wait-unbounded', 'C12', 'fire:Q6',
   (Q, '''            self.wake.wait(first_timestamp-now)''',
    '''            self.wake.wait()''', 1))
-M('c12-twin-check-ready-flag', 'C12', 'silent',
-  (Q, '''            if now >= timestamp:
-                self._pool_spawn('store', self._dequeue, entry_id)
-                last_i = i+1
-            else:
-                break''', '''            if timestamp > now:
-                break
-            self._pool_spawn('store', self._dequeue, entry_id)
-            last_i = i+1''', 1))
-
 # ---------------------------------------------------------------- C13
 BO = 'slimta/bounce/__init__.py'
 M('c13-bounce-null-sender', 'C13', 'fire:B1',
@@ -1348,3 +1320,74 @@ M('c02-twin-enumerate-scan', 'C02', 'silent',
             if isinstance(result, QueueError):''', '''        for pair in results:
             result = pair[1]
             if isinstance(result, QueueError):''', 1))
+
+
+# ------------------------------------------ C12 after the bounded-pool fix
+M('c12-kept-part-not-complement', 'C12', 'fire:Q5',
+  (Q, '''            ready = self.queued[:last_i]
+            self.queued = self.queued[last_i:]''', '''            ready = self.queued[:last_i]
+            self.queued = self.queued[last_i+1:]''', 1))
+M('c12-ready-not-all-dispatched', 'C12', 'fire:Q5',
+  (Q, '''            for _, entry_id in ready:
+                self._pool_spawn('store', self._dequeue, entry_id)''', '''            for _, entry_id in ready:
+                if entry_id not in self.active_ids:
+                    self._pool_spawn('store', self._dequeue, entry_id)''', 1))
+M('c12-dispatch-inside-scan', 'C12', 'fire:Q7',
+  (Q, '''            if now >= timestamp:
+                last_i = i+1
+            else:
+                break''', '''            if now >= timestamp:
+                self._pool_spawn('store', self._dequeue, entry_id)
+                last_i = i+1
+            else:
+                break''', 1),
+  (Q, '''            for _, entry_id in ready:
+                self._pool_spawn('store', self._dequeue, entry_id)
+''', '''''', 1))
+M('c12-flush-iterates-shared-list', 'C12', 'fire:Q7',
+  (Q, '''            entries = self.queued
+            self.queued = []
+            self.queued_ids = set()
+            for entry in entries:
+                self._pool_spawn('store', self._dequeue, entry[1])''', '''            for entry in self.queued:
+                self._pool_spawn('store', self._dequeue, entry[1])
+            self.queued = []
+            self.queued_ids = set()''', 1))
+M('c12-dispatch-early', 'C12', 'fire:Q6',
+  (Q, '''            if now >= timestamp:
+                last_i = i+1''', '''            if now >= timestamp or i == 0:
+                last_i = i+1''', 1))
+M('c12-twin-check-ready-early-break', 'C12', 'silent',
+  (Q, '''            if now >= timestamp:
+                last_i = i+1
+            else:
+                break''', '''            if timestamp > now:
+                break
+            last_i = i+1''', 1))
+M('c01-dict-builtin-shadowed', 'C01', 'fire:R1.10',
+  (Q, '''                results = {rcpt: res for rcpt, res
+                           in zip(envelope.recipients, results)}''', '''                results = dict(zip(envelope.recipients, results))''', 1))
+M('c13-bounce-queue-by-truthiness', 'C13', 'fire:B4',
+  (Q, '''        self.bounce_queue = self if bounce_queue is None else bounce_queue''', '''        self.bounce_queue = bounce_queue or self''', 1))
+M('c01-permfails-only-without-tempfails', 'C01', 'fire:R1.8',
+  (Q, '''        if permfails:
+            rcpts, replies = zip(*permfails)
+            fail_env = envelope.copy(rcpts)
+            for reply, group_env in self._split_by_reply(fail_env, replies):
+                self._perm_fail(None, group_env, reply)
+        if tempfails:
+            rcpts, replies = zip(*tempfails)
+            fail_env = envelope.copy(rcpts)
+            self._retry_later(id, fail_env, replies, delivered)
+        else:
+            self.store.remove(id)''', '''        if tempfails:
+            rcpts, replies = zip(*tempfails)
+            fail_env = envelope.copy(rcpts)
+            self._retry_later(id, fail_env, replies, delivered)
+            return
+        if permfails:
+            rcpts, replies = zip(*permfails)
+            fail_env = envelope.copy(rcpts)
+            for reply, group_env in self._split_by_reply(fail_env, replies):
+                self._perm_fail(None, group_env, reply)
+        self.store.remove(id)''', 1))
